@@ -568,7 +568,7 @@ def coq_term(case, obs):
             cal, unit, ref = CALS[case['cal']], UNITS.get(case['unit'], 'UOther'), _ref_term(case['ref'])
         bm = {'none': 'BNone', 'mid': 'BMid', 'var': '(BVar %s)' % C.zlist(case.get('his', []))}[case['bmode']]
         d2n = idx = 'None'
-        if cal == 'CalStd' and isinstance(obs.get('d2n'), list):
+        if isinstance(obs.get('d2n'), list):
             g = _grid(obs['d2n'])
             if g is not None:
                 d2n = '(Some %s)' % C.zlist(g)
@@ -710,6 +710,11 @@ def py_check(case, obs):
     return dict(s_ok=not why, why='; '.join(why))
 
 
+def translate():
+    from harness import gen_times
+    return gen_times.translate()
+
+
 def nontrivial(case, obs):
     for key in ('times', 'dec'):
         t = obs.get(key)
@@ -741,7 +746,7 @@ def shrink(case):
         yield c
 
 
-LEVEL_TEXT = ('Theorems (Props/C12.v, 18, all closed under the global context) over Model/Times.v on a proved calendar library '
+LEVEL_TEXT = ('Theorems (Props/C12.v, 29, all closed under the global context) over Model/Times.v on a proved calendar library '
               '(Base/Calendar.v: civil date <-> day number for the proleptic Gregorian, noleap and all_leap calendars and '
               'YYYYJJJ/HHMMSS <-> seconds are mutual inverses for all years, lia + a 146097-day era sweep). Every clause is full strength: '
               'CF standard calendars (every unit, accepted spelling, zone, series length: C12_cf_standard_correct), 365/366-day calendars '
@@ -750,11 +755,17 @@ LEVEL_TEXT = ('Theorems (Props/C12.v, 18, all closed under the global context) o
               '(C12_tflag_correct, C12_tflag_bounds_correct), SDATE/STIME/TSTEP (C12_sdate_tstep_correct), updatetflag rows '
               '(C12_updatetflag_roundtrip), synthesised time variable (C12_synth_matches_flags, C12_synth_matches_attrs, '
               'C12_synth_bounds_edge), date2num round trip (C12_date2num_roundtrip), time2idx identity (C12_time2idx_identity). '
+              'Extension: date2num round trip in the 365/366-day calendars (C12_date2num_fixed_roundtrip), time2idx through date2num '
+              '(C12_time2idx_of_getTimes), updatetflag then getTimes (C12_updatetflag_then_decode), midpoint bounds of evenly spaced '
+              'series (C12_bounds_midpoints). Tie T (coq/Gen/Times.v regenerated from getTimes / add_time_variable on every run): TFLAG '
+              'field split and the fractional-day expression read exactly over Q (C12_gen_tflag_fields, C12_gen_tflag_days_exact, '
+              'C12_gen_tflag_instant), bounds step (C12_gen_bounds_step), the digit slices of \'%06d\' % TSTEP in getTimes and '
+              'add_time_variable for digit strings of any length (C12_gen_sdate_step, C12_gen_synth_step on Base/DecDigits.v). '
               'No _partial/_refuted theorem is left: the defects found were repaired (fixes/C12-*.patch) and the model describes the '
               'repaired code. Tie H: getTimes / date2num / time2idx / add_time_variables / updatetflag of the library vs the model on every '
               'generated case, plus cftime and integer datetime arithmetic as independent oracles.')
 LEVEL_NOTE = ('Trusted: Coq kernel + vm_compute; the harness; binary64 exactness of the library on the 1/64-unit grid and of the TFLAG '
               'fractional-day expression (checked by F on every case, not proved); _parse_ref_date as a table of spellings; cftime as oracle. '
               'Not modelled: tau0 beyond hours-since-1985 decoding, TSTEP < 0 in add_time_variable, descending time2idx, 360_day/julian; '
-              'date2num for 365/366-day calendars is checked by the cftime oracle only.')
+              'time2t, gettimes/gettimebnds of coordutil.')
 TECHNIQUE = 'Coq proof (calendar inverses by lia + finite era sweep, induction over time series) + differential correspondence'
